@@ -497,7 +497,8 @@ def runCs (ws : List String) (impl : String) : String :=
 `cm n=<n> cap=<cap> ops=<op>.<op>…`, texts 0-2 (the SELECT spellings). The harness keeps every handle it was given in a
 numbered slot. Ops: `g<t>` one `add_prepared_statement`, handle → next slot; `c<t><t>…` concurrent callers, handles →
 next slots in caller order; `A<t>` the schema changes (every node: the statement's result metadata version + 1);
-`h<j>` `Session::execute_unpaged` through the handle in slot j; `x<t>` `CachingSession::execute_unpaged(text)`.
+`h<j>` `Session::execute_unpaged` through the handle in slot j; `x<t>` `CachingSession::execute_unpaged(text)`;
+`V<node>` the node forgets its prepared statements; `F<node>` / `G<node>` the node refuses / accepts PREPAREs (never node 0).
 Tokens: `<op>~p=<n0>.<n1>.<n2>` (preparations per text), `…~mid=<version presented>~chg=<node answered METADATA_CHANGED>`.
 The checker keeps the set of (cache with cells, cell of every slot, version held by every cell) the MODEL
 (`PreparedCacheConc.step`, `execThrough`, `newCell`) can be in. -/
@@ -602,41 +603,108 @@ def b01 (b : Bool) : String := if b then "1" else "0"
 structure Ck where
   srv : List Nat
   cands : List St
+  /-- per node: refuses PREPAREs; the texts it holds prepared -/
+  refusing : List Bool
+  held : List (List Nat)
+
+/-- after a preparation of text `t` every node that does not refuse holds it -/
+def holdAll (ck : Ck) (ps : List Nat) : Ck :=
+  { ck with held := ck.held.zipIdx.map (fun (h, node) =>
+      if ck.refusing.getD node false then h else h ++ ((List.range 3).filter (fun t => ps.getD t 0 > 0 && !h.contains t))) }
+
+/-- the execution part of a token: `mid=<P>~u=-~chg=<C>` (a node that holds the statement), `mid=<P>~u=<k>~re=<S>~chg=<C>`
+(node k answered UNPREPARED, was re-prepared: the statement object now holds what the PREPARED announced - `newCell` -
+and the EXECUTE is sent again), `mid=<P>~u=<k>~err` (node k refused the re-preparation: nothing changes).
+Returns the new state and the node that now holds the text, if any. -/
+def execTok (mu : Nat) (ck : Ck) (s : St) (t cell : Nat) (rest : String) : Option (St × Option Nat) :=
+  let presented := cellsFn s.cells cell
+  let holders := (List.range ck.held.length).filter (fun node => (ck.held.getD node []).contains t)
+  match rest.splitOn "~" with
+  | [m, "u=-", c] =>
+    let (pres, chg, s') := execH mu ck.srv s t cell
+    if !holders.isEmpty && m == s!"mid={pres}" && c == s!"chg={b01 chg}" then some (s', none) else none
+  | [m, u, "err"] =>
+    match ((u.splitOn "u=").getLastD "").toNat? with
+    | some node =>
+      if node < ck.held.length && !holders.contains node && ck.refusing.getD node false && m == s!"mid={presented}" then some (s, none) else none
+    | none => none
+  | [m, u, re, c] =>
+    match ((u.splitOn "u=").getLastD "").toNat? with
+    | some node =>
+      if !(node < ck.held.length && !holders.contains node && !(ck.refusing.getD node false) && m == s!"mid={presented}") then none else
+      -- the re-preparation stores the announced (current) metadata in the statement object
+      let s1 : St := { s with cells := (cell, newCell (cellsFn s.cells) cell (ck.srv.getD t 0) cell) :: s.cells.filter (·.1 != cell) }
+      let (pres, chg, s2) := execH mu ck.srv s1 t cell
+      if re == s!"re={pres}" && c == s!"chg={b01 chg}" then some (s2, some node) else none
+    | none => none
+  | _ => none
+
+def holdOne (ck : Ck) (t : Nat) : Option Nat → Ck
+  | none => ck
+  | some node => { ck with held := ck.held.zipIdx.map (fun (h, i) => if i == node && !h.contains t then h ++ [t] else h) }
 
 def stepCm (mu cap : Nat) (ck : Ck) (op tok : String) : Except String Ck :=
   let fin (next : List St) (ck' : Ck) : Except String Ck :=
     let d := dedup next
     if d.isEmpty then .error s!"not producible by the model from any of its {ck.cands.length} state(s)" else .ok { ck' with cands := d }
+  -- `<op>~p=a.b.c~…`: the preparation counts, and the rest
+  let pOf (rest : List String) : Option (List Nat × String) :=
+    match rest with
+    | p :: more =>
+      (match ((p.splitOn "p=").getLastD "").splitOn "." |>.mapM String.toNat? with
+       | some ps => if p.startsWith "p=" && ps.length == 3 then some (ps, "~".intercalate more) else none
+       | none => none)
+    | [] => none
   match op.toList with
   | ['A', d] =>
     let t := d.toNat - 48
     if tok != op then .error "event token" else
     .ok { ck with srv := ck.srv.zipIdx.map (fun (v, i) => if i == t then v + 1 else v) }
-  | 'g' :: [d] =>
-    let t := d.toNat - 48
-    fin ((ck.cands.map (fun s => (adds mu cap ck.srv s [t]).filterMap (fun (s', hs, ps) =>
-      if tok == s!"{op}~p={showP ps}" then some { s' with slots := s'.slots ++ hs } else none))).flatten) ck
-  | 'c' :: body =>
-    let texts := body.map (fun d => d.toNat - 48)
-    fin ((ck.cands.map (fun s => (adds mu cap ck.srv s texts).filterMap (fun (s', hs, ps) =>
-      if tok == s!"{op}~p={showP ps}" then some { s' with slots := s'.slots ++ hs } else none))).flatten) ck
+  | ['V', d] =>
+    if tok != op then .error "event token" else
+    .ok { ck with held := ck.held.zipIdx.map (fun (h, i) => if i == d.toNat - 48 then [] else h) }
+  | ['F', d] | ['G', d] =>
+    if tok != op then .error "event token" else
+    .ok { ck with refusing := ck.refusing.zipIdx.map (fun (r, i) => if i == d.toNat - 48 then op.startsWith "F" else r) }
+  | 'g' :: _ | 'c' :: _ =>
+    let texts := (op.toList.drop 1).map (fun d => d.toNat - 48)
+    match tok.splitOn "~" with
+    | opE :: rest =>
+      (match pOf rest with
+       | some (psObs, "") =>
+         if opE != op then .error "op echo" else
+         fin ((ck.cands.map (fun s => (adds mu cap ck.srv s texts).filterMap (fun (s', hs, ps) =>
+           if ps == psObs then some { s' with slots := s'.slots ++ hs } else none))).flatten) (holdAll ck psObs)
+       | _ => .error "bad token")
+    | [] => .error "bad token"
   | 'h' :: js =>
-    match (String.ofList js).toNat? with
-    | none => .error "bad op"
-    | some j =>
-      fin (ck.cands.filterMap (fun s => match s.slots[j]? with
+    match (String.ofList js).toNat?, tok.splitOn "~" with
+    | some j, opE :: rest =>
+      if opE != op then .error "op echo" else
+      let results := ck.cands.filterMap (fun s => match s.slots[j]? with
         | none => none
-        | some (t, cell) =>
-          let (pres, chg, s') := execH mu ck.srv s t cell
-          if tok == s!"{op}~mid={pres}~chg={b01 chg}" then some s' else none)) ck
+        | some (t, cell) => (execTok mu ck s t cell ("~".intercalate rest)).map (fun (s', nd) => (s', t, nd)))
+      (match results.head? with
+       | some (_, t, nd) => fin (results.map (·.1)) (holdOne ck t nd)
+       | none => fin [] ck)
+    | _, _ => .error "bad op"
   | 'x' :: [d] =>
     let t := d.toNat - 48
-    fin ((ck.cands.map (fun s => (adds mu cap ck.srv s [t]).filterMap (fun (s', hs, ps) =>
-      match hs with
-      | [(t', cell)] =>
-        let (pres, chg, s'') := execH mu ck.srv s' t' cell
-        if tok == s!"{op}~p={showP ps}~mid={pres}~chg={b01 chg}" then some s'' else none
-      | _ => none))).flatten) ck
+    match tok.splitOn "~" with
+    | opE :: rest =>
+      (match pOf rest with
+       | some (psObs, execPart) =>
+         if opE != op then .error "op echo" else
+         let ck1 := holdAll ck psObs
+         let results := (ck.cands.map (fun s => (adds mu cap ck.srv s [t]).filterMap (fun (s', hs, ps) =>
+           match hs with
+           | [(t', cell)] => if ps == psObs then execTok mu ck1 s' t' cell execPart else none
+           | _ => none))).flatten
+         (match results.head? with
+          | some (_, nd) => fin (results.map (·.1)) (holdOne ck1 t nd)
+          | none => fin [] ck1)
+       | none => .error "bad token")
+    | [] => .error "bad token"
   | _ => .error "bad op"
 
 def runCm (ws : List String) (impl : String) : String :=
@@ -647,6 +715,8 @@ def runCm (ws : List String) (impl : String) : String :=
     -- slots are created by g / c only, in order: h<j> must name an existing one
     let (okOps, _) := ops.foldl (fun (acc : Bool × Nat) op => match op.toList with
       | ['A', d] | ['x', d] => (acc.1 && d3 d, acc.2)
+      | ['V', d] => (acc.1 && d.isDigit && (d.toNat - 48) < n, acc.2)
+      | ['F', d] | ['G', d] => (acc.1 && d.isDigit && 0 < (d.toNat - 48) && (d.toNat - 48) < n, acc.2)
       | ['g', d] => (acc.1 && d3 d, acc.2 + 1)
       | 'c' :: body => (acc.1 && 1 ≤ body.length && body.length ≤ 3 && body.all d3, acc.2 + body.length)
       | 'h' :: js => (acc.1 && !js.isEmpty && js.all Char.isDigit && js.length ≤ 2 && ((String.ofList js).toNat?.getD 99) < acc.2, acc.2)
@@ -662,7 +732,8 @@ def runCm (ws : List String) (impl : String) : String :=
     let r := (ops.zip toks).foldl (fun (acc : Except String Ck) (op, tok) =>
       match acc with
       | .error e => .error e
-      | .ok ck => match stepCm mu cap ck op tok with | .error e => .error s!"{op}: {e}" | .ok ck' => .ok ck') (.ok ⟨[0, 0, 0], [⟨[], [], []⟩]⟩)
+      | .ok ck => match stepCm mu cap ck op tok with | .error e => .error s!"{op}: {e}" | .ok ck' => .ok ck')
+      (.ok ⟨[0, 0, 0], [⟨[], [], []⟩], List.replicate n false, List.replicate n []⟩)
     match r with
     | .ok _ => implT
     | .error e => "REJECT " ++ e
